@@ -30,6 +30,7 @@ func c02Enumerate(tier string, emit func(*eng.Case)) {
 			emit(caseFromModel("doc", d, atoms, url))
 		})
 	}
+	crossEmit(tier, "xdoc", 1, emit)
 }
 
 func c02Check(c *eng.Case) *eng.Outcome {
@@ -45,6 +46,9 @@ func c02Check(c *eng.Case) *eng.Outcome {
 		last := -1
 		lastW := ""
 		for _, w := range view {
+			if c.Kind == "xdoc" && a.SrcDup[w] {
+				continue // documents of other checks repeat words (labels, page numbers): only unique ones are ordered
+			}
 			pos, ok := a.SrcPos[w]
 			if !ok {
 				kind := "invented"
@@ -79,15 +83,16 @@ func init() {
 		ID:        "C02",
 		DesignRef: "§5 C02",
 		Rule: "docspace BFS: skeletons S1 (article), S2 (article between link-cluster chrome) with <= 2 (quick) / <= 3 (thorough) insertions of one of 31 block atoms (including bare text next to tables, tables with hidden/comment-only cells, a table inside a list item, a sidebar-classed link cluster) at every child position of body and of the article container, plus S3 (>= 520-word article) with one edit fewer; with and without page URL; " +
-			"every word is a unique token. Oracle: words of Text and of the visible text of result.Node are a duplicate-free subsequence of the visible source words. Non-trivial = >= 20 words kept and >= 1 visible source word dropped.",
+			"every word is a unique token." + crossRule + " (there, only words that occur once in the visible source are judged). Oracle: words of Text and of the visible text of result.Node are a duplicate-free subsequence of the visible source words. Non-trivial = >= 20 words kept and >= 1 visible source word dropped.",
 		Enumerate: c02Enumerate,
 		Check:     c02Check,
+		Prepare:   func(tier string) { CrossCorpus(tier) },
 		Bounds: func(tier string) map[string]any {
 			e := 2
 			if tier == "thorough" {
 				e = 3
 			}
-			return map[string]any{"max_edits": e, "atoms": len(c02Alphabet), "skeletons": []string{"S1", "S2", "S3(max_edits-1)"}, "page_urls": 2}
+			return map[string]any{"max_edits": e, "atoms": len(c02Alphabet), "skeletons": []string{"S1", "S2", "S3(max_edits-1)"}, "page_urls": 2, "cross": crossBounds(tier)}
 		},
 	})
 }
